@@ -10,10 +10,18 @@ if rnd == "2":
     t = t.replace("Deliverables, in", "Look for mechanisms beyond the obvious single-function slip: a fault or error path, a crash point, a "
                   "particular interleaving, persisted state read back later, an unusual but legal configuration, two sites that "
                   "must stay consistent with each other.\n\nDeliverables, in")
+if rnd == "3":
+    t = t.replace("(call them A and B)", "(call them E and F)").replace("{OUT}/A and {OUT}/B", "{OUT}/E and {OUT}/F") \
+         .replace("A and B must break", "E and F must break")
+    t = t.replace("Deliverables, in", "Look away from the first place one would think of: the less central files and functions among the "
+                  "ones the property is anchored in (helpers, option handling, error and cleanup paths, the second implementation "
+                  "of the same interface, conversions at the boundary), and changes whose effect shows only through a combination "
+                  "of two legal settings or two operations. A plausible refactoring or optimisation that is wrong only in a corner "
+                  "is better than a flipped condition.\n\nDeliverables, in")
 for l in open('/verif/properties.jsonl'):
     p = json.loads(l)
     if p['id'] == pid:
-        wt, out = ('/tmp/seedwt-' + pid, '/tmp/seedout-' + pid) if rnd == "1" else ('/tmp/seed2wt-' + pid, '/tmp/seedout2-' + pid)
+        wt, out = ('/tmp/seedwt-' + pid, '/tmp/seedout-' + pid) if rnd == "1" else ('/tmp/seed%swt-' % rnd + pid, '/tmp/seedout%s-' % rnd + pid)
         print(t.replace('{WT}', wt).replace('{OUT}', out).replace('{PID}', pid)
               .replace('{TITLE}', p['title']).replace('{STATEMENT}', p['statement'])
               .replace('{QUANT}', p['quantifier']['text']).replace('{FILES}', ', '.join(p['anchors']['files'])))
